@@ -9,6 +9,10 @@
     multi-line a/i/c, s///g, |-joined commands, put, filters) mixed with u / redo, the text read
     back with %p after every command; `vi -v` key streams with counted commands, u and ^R, the
     text written to a side file after every command.
+(3) Several buffers (exbufs): 3-5 files, command lines that edit and then switch (or switch and then edit) in ONE line,
+    later lines that come back and edit, then u / redo walks in every buffer; oracle = one undo stack per buffer, one step
+    per command line per buffer; correspondence with the extracted table model (coq/UndoBufsDefs.v: BufsDefs with the edit
+    log of UndoDefs in every slot) on the same histories.
 Oracle (the property itself, evaluated on the implementation's texts, independent of the model):
 a stack of earlier texts keyed by command number.
 """
@@ -17,7 +21,8 @@ from concurrent.futures import ProcessPoolExecutor
 import vlib
 
 GROUP = 'undo'
-TRUSTED = ['the Python undo-stack oracle of tools/props/c04.py (a list of earlier texts keyed by command number)']
+TRUSTED = ['the Python undo-stack oracle of tools/props/c04.py (a list of earlier texts keyed by command number; one such list per buffer in the several-buffer stream, buffers recognised by a tag in every line)',
+           'ocaml/drv_undobufs.ml (driver of the extracted several-buffer model); in that correspondence an editing command is abstracted to one lbuf_edit call carrying the text observed after it']
 
 # ---------------------------------------------------------------------------------------------
 # line-buffer level
@@ -855,6 +860,80 @@ def run_bufs_case(exe, case, timeout=20):
     return ('bad', bad, info) if bad else ('ok', info)
 
 
+def bufs_tok(kind, c):
+    """the model command of a switch / other part (None: no effect on the buffer table or on any edit log)"""
+    hxn = lambda n: n.encode().hex()
+    m = re.fullmatch(r'(e|ew)(!?) (\S+)', c)
+    if m:
+        a = m.group(3)
+        return 'E:%d:%d:%s' % (1 if m.group(2) else 0, 1 if m.group(1) == 'ew' else 0, 'alt:-' if a == '#' else 'cur:-' if a == '%' else 'lit:' + hxn(a))
+    m = re.fullmatch(r'b (\d+)', c)
+    if m:
+        return 'BI:' + m.group(1)
+    return {'b': 'BL', 'b +': 'B+', 'b -': 'B-', 'b #': 'BA:1', 'b ^': 'BA:2', 'b %': 'BA:0', 'next': 'N', 'prev': 'P', 'q': 'Q:0',
+            'u': 'U', 'redo': 'R', 'se wa': 'SW:1'}.get(c)
+
+
+def bufs_model_request(case, info):
+    """the blind script for the model of coq/UndoBufsDefs.v: the switching commands as they are, every editing part as ONE
+    lbuf_edit call that replaces the whole text by the text observed after the part (the splice itself is C06's; what is
+    compared here is the grouping into undo steps, which is the table model's: bumps of bufs_switch and of ex_command)"""
+    hxn = lambda n: n.encode().hex()
+    w = [str(len(case['files']))]
+    for n in sorted(case['files']):
+        w += [hxn(n), vlib.hx(case['files'][n].encode())]
+    args = sorted(case['files'])
+    w += [str(len(args))] + [hxn(n) for n in args]
+    if case['wa']:
+        w += ['L', 'SW:1']
+    known = {0: case['files']['f0'].encode()}
+    for rec in info['recs']:
+        w.append('L')
+        for kind, c, cur, t in rec:
+            if kind == 'e':
+                if t != known.get(cur):
+                    w.append('X:' + vlib.hx(t))
+            else:
+                tok = bufs_tok(kind, c)
+                if tok:
+                    w.append(tok)
+            known[cur] = t
+    before = None
+    for st, t in zip(case['walk'], info['walk']):
+        w.append('L')
+        t0, before = before, t
+        if st[0] == 'm' and t == t0:
+            continue                    # the command changed nothing (address beyond the end): no lbuf_edit call
+        if st[0] == 'go':
+            w.append('E:1:0:lit:' + hxn(st[1]))
+        elif st[0] == 'u':
+            w.append('U')
+        elif st[0] == 'r':
+            w.append('R')
+        else:
+            w.append('X:' + vlib.hx(t if t is not None else b''))
+    return ' '.join(w)
+
+
+def bufs_model_compare(case, info, answer):
+    """None or a description of the first difference between the model's and the implementation's texts"""
+    a = answer.split(' ')
+    k0 = 1 if case['wa'] else 0
+    n1 = len(info['recs'])
+    if len(a) != k0 + n1 + len(case['walk']):
+        return 'the model answered %d of %d command lines: %s' % (len(a), k0 + n1 + len(case['walk']), answer[:200])
+    for k, rec in enumerate(info['recs']):
+        want = vlib.hx(rec[-1][3])
+        got = a[k0 + k].split(':')[-1]
+        if got != want:
+            return 'text of the current buffer after command line %d: implementation %s, model %s' % (k + 1, rec[-1][3], a[k0 + k])
+    for k, t in enumerate(info['walk']):
+        got = a[k0 + n1 + k].split(':')[-1]
+        if t is not None and got != vlib.hx(t):
+            return 'text after walk step %d (%s): implementation %r, model %s' % (k + 1, case['walk'][k], t, a[k0 + n1 + k])
+    return None
+
+
 def bufs_shrink(exe, case):
     def with_(lines, walk):
         c = dict(case)
@@ -893,13 +972,16 @@ def run(ctx):
     probe = vlib.build_probe('undo', includes=['lbuf'])
     probe_asan = vlib.build_probe('undo', includes=['lbuf'], asan=True)
     model = ctx.model('undo')
+    model_b = ctx.model('undobufs')
     vi = vlib.build_vi()
     L = 4 if ctx.quick else 6
     res.rule = ('lbuf = one operation list (edit / command boundary / undo / redo) through the real lbuf_* API and through the extracted model, '
                 'result code and text compared after every operation, undo-stack oracle on the implementation\'s texts; every list up to length %d over '
                 'a %d-operation alphabet on buffers of 0, 1 and 3 lines, random lists up to length 60, lists crossing the growth points of hist[]; '
                 'ex = vi -s -e script of compound commands with u/redo, %%p after every command; vi = vi -v key stream with counted commands, u, ^R, '
-                'side file written after every command.  non-trivial = the list contains both an undo and a redo; distinct = distinct list/script') % (L, len(ALPHA))
+                'side file written after every command; exbufs = 3-5 files, command lines `p1|p2|...` that edit the current buffer and switch (e! e # b N b + - # ^ next prev q) '
+                'in one line, then undo/redo walks in every buffer, oracle = per-buffer undo stacks (one step per command line per buffer) from an observed run, '
+                'the walk taken from a run with nothing between the lines; the same histories through the extracted table model with the edit log in every slot.  non-trivial = the list contains both an undo and a redo; distinct = distinct list/script') % (L, len(ALPHA))
 
     # ---- replay / corpus
     def one_lbuf(init, ops, where):
@@ -1118,13 +1200,35 @@ def run(ctx):
                 # a line that changes a buffer and then leaves it / enters a buffer and then changes it
                 ks = [x[0] for x in rec]
                 if 'e' in ks and 's' in ks[ks.index('e'):]:
-                    res.count('ex command lines that edit and then switch')
+                    res.count('ex several-buffer histories with a command line that edits and then switches')
                     break
         if r[0] == 'bad' and nrep < 2:
             nrep += 1
             report_bufs(c, r)
         elif r[0] == 'crash':
             res.violation({'what': 'ex, several buffers: ' + r[1], 'input': c})
+    # correspondence on the same histories: the extracted table model with the edit log of lbuf.c in every slot
+    # (coq/UndoBufsDefs.v) runs the blind script; texts of the current buffer after every command line and walk step
+    if model_b:
+        reqs, who = [], []
+        for c, r in zip(bcases, bouts):
+            if r[0] in ('ok', 'bad'):
+                reqs.append(bufs_model_request(c, r[1] if r[0] == 'ok' else r[2]))
+                who.append((c, r))
+        if reqs:
+            rc, ans, err = vlib.run_lines(model_b, reqs)
+            if rc != 0 or len(ans) != len(reqs):
+                res.disagree({'what': 'model driver undobufs: rc=%d, %d answers for %d requests' % (rc, len(ans), len(reqs)), 'stderr': err[-800:]})
+            else:
+                nd = 0
+                for (c, r), a in zip(who, ans):
+                    d = bufs_model_compare(c, r[1] if r[0] == 'ok' else r[2], a)
+                    res.count('ex several-buffer histories compared with the table model')
+                    if d:
+                        nd += 1
+                        if nd <= 3:
+                            res.disagree({'what': 'several buffers: model (coq/UndoBufsDefs.v) and implementation differ: ' + d[:600],
+                                          'input': c, 'script': bufs_describe(c)})
     if bcases:
         res.sample({'kind': 'exbufs', 'script': bufs_describe(bcases[0])})
     r5 = rng.fork('viwalk')
